@@ -692,6 +692,15 @@ func (e *cmpEnv) evalInt(x ast.Expr) int {
 		if v.Op == token.SUB {
 			return -e.evalInt(v.X)
 		}
+	case *ast.BinaryExpr:
+		switch v.Op {
+		case token.MUL:
+			return e.evalInt(v.X) * e.evalInt(v.Y)
+		case token.ADD:
+			return e.evalInt(v.X) + e.evalInt(v.Y)
+		case token.SUB:
+			return e.evalInt(v.X) - e.evalInt(v.Y)
+		}
 	case *ast.CallExpr:
 		if tv, ok := e.info.Types[v.Fun]; ok && tv.IsType() && len(v.Args) == 1 {
 			return e.evalInt(v.Args[0])
@@ -1078,6 +1087,18 @@ func c13Sort(p *core.Program, r *core.Report, t *types.Named) {
 				for _, C := range cs {
 					env := &cmpEnv{info: info, P: P, C: C, bools: map[string]bool{"asc": asc, "childAsc": true}, ints: map[types.Object]int{}, o1: pn[0], o2: pn[1],
 						inl: newInliner(p, fi, func(fn *types.Func) bool { return fn.Name() == "CompareChild" }), bind: bind, elemOf: elemOf}
+					// integer locals of the enclosing function the comparator closes over (dir := 1;
+					// if !asc { dir = -1 }): the simple statements before the closure are run first
+					for _, st := range fi.Decl.Body.List {
+						if st.Pos() >= lit.Pos() {
+							break
+						}
+						if !intOnlyStmt(info, st) {
+							continue
+						}
+						env.runInt([]ast.Stmt{st})
+						env.err = ""
+					}
 					got, ret := env.run(lit.Body.List)
 					evals++
 					if env.err != "" || !ret {
@@ -2111,4 +2132,74 @@ func linkedConsistent(pa paths.Path) bool {
 		}
 	}
 	return true
+}
+
+// intOnlyStmt: a statement that only defines or assigns integer locals (possibly under an if on
+// booleans): safe to pre-run before a comparator closure.
+func intOnlyStmt(info *types.Info, st ast.Stmt) bool {
+	isIntIdent := func(e ast.Expr) bool {
+		id, ok := e.(*ast.Ident)
+		if !ok {
+			return false
+		}
+		o := info.ObjectOf(id)
+		if o == nil {
+			return false
+		}
+		b, ok := o.Type().Underlying().(*types.Basic)
+		return ok && b.Info()&types.IsInteger != 0
+	}
+	switch v := st.(type) {
+	case *ast.AssignStmt:
+		for _, l := range v.Lhs {
+			if !isIntIdent(l) {
+				return false
+			}
+		}
+		for _, r := range v.Rhs {
+			if _, isCall := ast.Unparen(r).(*ast.CallExpr); isCall {
+				return false
+			}
+		}
+		return true
+	case *ast.DeclStmt:
+		gd, ok := v.Decl.(*ast.GenDecl)
+		if !ok {
+			return false
+		}
+		for _, sp := range gd.Specs {
+			vs, ok := sp.(*ast.ValueSpec)
+			if !ok {
+				return false
+			}
+			for _, nm := range vs.Names {
+				if !isIntIdent(nm) {
+					return false
+				}
+			}
+		}
+		return true
+	case *ast.IfStmt:
+		if v.Init != nil {
+			return false
+		}
+		for _, b := range v.Body.List {
+			if !intOnlyStmt(info, b) {
+				return false
+			}
+		}
+		if v.Else != nil {
+			if blk, ok := v.Else.(*ast.BlockStmt); ok {
+				for _, b := range blk.List {
+					if !intOnlyStmt(info, b) {
+						return false
+					}
+				}
+			} else if !intOnlyStmt(info, v.Else) {
+				return false
+			}
+		}
+		return true
+	}
+	return false
 }
